@@ -43,6 +43,16 @@ CHECKS = {
         note="z3 decides integer polynomial identities mod r; trusted: primality of r, the "
              "symbolic dispatch of the vendored dependency copy (validated differentially each run), specs in py/spec",
         tech="symbolic execution of the real Rust code on a term-recording field + SMT (z3, Int mod r)"),
+    "C06": dict(
+        cat="other", ref="§5 C06",
+        text="Bounded solver verdict: the real compile + Prover::prove run on a tiny concrete circuit with a symbolic "
+             "SRS, the 14 blinders symbolic and scripted challenges; for ALL blinder values z3 proves that each wire "
+             "commitment/evaluation carries exactly (b_2k + b_2k+1 X) Z_H, the permutation polynomial "
+             "(b_8 + b_9 X + b_10 X^2) Z_H, the quotient shares the prescribed +/- b X^n re-randomisation, that every "
+             "commitment and wire/z evaluation depends on randomness, and the RNG log shows exactly 14 draws of 64 bytes.",
+        note="one tiny circuit/witness/challenge instance per seed (2 circuits quick, 3 thorough); structural "
+             "coefficient extraction validated by random evaluation; independence of masks is the standard argument",
+        tech="symbolic execution of the real prover (symbolic SRS + symbolic blinders) + SMT (z3)"),
     "C08": dict(
         cat="other", ref="§5 C08",
         text="Bounded solver verdict: each component is executed by the real composer on symbolic witnesses and "
